@@ -159,13 +159,13 @@ theorem int_td_str_agree (t0 t1 n : Int) (hn : n ≠ 0) (hal : (t1 - t0) % DAY =
         have : ¬ tdDays (t1 - t0) * n < 0 := by have := Int.mul_pos hd hpos; omega
         have h1 : t1 > t0 := hlt
         have h2 : ¬ (t0 + DAY * n ≤ t0) := by unfold DAY; omega
-        simp only [this, if_false, loopBranch, h1, if_true, h2]
+        simp only [this, hn, or_self, if_false, loopBranch, h1, if_true, h2]
       · have hd := tdDays_neg (t1 - t0) (by omega)
         have : tdDays (t1 - t0) * n < 0 := Int.mul_neg_of_neg_of_pos hd hpos
         have h1 : ¬ t1 > t0 := by omega
         have h3 : t1 < t0 := by omega
         have h2 : t0 + DAY * n ≥ t0 := by unfold DAY; omega
-        simp only [this, if_true, loopBranch, h1, if_false, h3, h2]
+        simp only [this, true_or, if_true, loopBranch, h1, if_false, h3, h2]
     · have hn' : ¬ n > 0 := by omega
       have hb : ¬ (Per.d = Per.b) := by decide
       simp only [hb, false_or, hn', if_false, hstep]
@@ -290,7 +290,8 @@ theorem single_forward (n : Int) (u : Per) (hu : u ≠ .b) (hn : 0 < n) (t0 t1 :
   have hi : 0 < n * (if u = Per.q then 3 else 1) := by split <;> omega
   have : ¬ tdDays (t1 - t0) * (n * (if u = Per.q then 3 else 1)) < 0 := by
     have := Int.mul_nonneg hd (Int.le_of_lt hi); omega
-  simp only [drange, hne, if_false, hu, false_or, hn', if_true, this]
+  have hz : ¬ (n * (if u = Per.q then 3 else 1) = 0) := by omega
+  simp only [drange, hne, if_false, hu, false_or, hn', if_true, this, hz, or_self]
 
 /-- a single period with a negative count (the repaired branch, F3): iterated backwards with `dt_bump` -/
 theorem single_backward (n : Int) (u : Per) (hu : u ≠ .b) (hn : n < 0) (t0 t1 : Int) (h : t1 < t0)
@@ -401,7 +402,8 @@ theorem single_eq_iter_step (n : Int) (u : Per) (hu : u ≠ .b) (hn : 0 < n) (t0
     have := Int.mul_nonneg hd (Int.le_of_lt hi); omega
   have h1 : t1 > t0 := h
   have h2 : ¬ dtBump [(n, u)] t0 ≤ t0 := by omega
-  simp only [drange, hne, if_false, hu, false_or, hn', if_true, this, loopBranch, h1, h2]
+  have hz : ¬ (n * (if u = Per.q then 3 else 1) = 0) := by omega
+  simp only [drange, hne, if_false, hu, false_or, hn', if_true, this, hz, or_self, loopBranch, h1, h2]
   congr 1
   unfold upTo
   have hstep : dtBump [(n, u)] = fun t => bump1 t n u := by funext t; rfl
@@ -608,7 +610,7 @@ theorem single_away_pos (n : Int) (u : Per) (hn : 0 < n) (t0 t1 : Int) (h : t1 <
   have hd := tdDays_neg (t1 - t0) (by omega)
   have hi : 0 < n * (if u = Per.q then 3 else 1) := by split <;> omega
   have : tdDays (t1 - t0) * (n * (if u = Per.q then 3 else 1)) < 0 := Int.mul_neg_of_neg_of_pos hd hi
-  simp only [drange, hne, if_false, hn', or_true, if_true, this]
+  simp only [drange, hne, if_false, hn', or_true, if_true, this, true_or]
 
 /-- …and a negative count of a fixed-length unit with `t0 < t1` (on the pinned tree this returned `[]` whenever
 `t1` was less than a day ahead) -/
@@ -661,7 +663,8 @@ theorem kb_stride (k : Int) (hk : 1 ≤ k) (t0 t1 : Int) (h : t0 < t1) :
     have := Int.mul_nonneg hd (show (0 : Int) ≤ k * 1 by omega); omega
   have hq : ¬ (Per.b = Per.q) := by decide
   have hk0 : ¬ k * 1 < 0 := by omega
-  simp only [drange, hne, if_false, true_or, if_true, hq, this, orient, hk0]
+  have hz : ¬ (k * 1 = 0) := by omega
+  simp only [drange, hne, if_false, true_or, if_true, hq, this, hz, or_self, orient, hk0]
   rw [show min t0 t1 = t0 by omega, show max t0 t1 = t1 by omega, Int.mul_one]
 
 theorem kb_stride_backward (k : Int) (hk : k ≤ -1) (t0 t1 : Int) (h : t1 < t0) :
@@ -674,7 +677,8 @@ theorem kb_stride_backward (k : Int) (hk : k ≤ -1) (t0 t1 : Int) (h : t1 < t0)
     have := Int.mul_pos_of_neg_of_neg hd (show k * 1 < 0 by omega); omega
   have hq : ¬ (Per.b = Per.q) := by decide
   have hk0 : k * 1 < 0 := by omega
-  simp only [drange, hne, if_false, true_or, if_true, hq, this, orient, hk0]
+  have hz : ¬ (k * 1 = 0) := by omega
+  simp only [drange, hne, if_false, true_or, if_true, hq, this, hz, or_self, orient, hk0]
   rw [show min t0 t1 = t1 by omega, show max t0 t1 = t0 by omega, Int.mul_one]
 
 /-- what "every k-th" means: element `i` of `l[::k]` is element `k*i` of `l` -/
@@ -785,5 +789,64 @@ example : TokParts [⟨.none, ['1'], 'm'⟩, ⟨.plus, ['2'], 'd'⟩] [(1, .m), 
 example : drange 63082281600000000 (63082281600000000 + 300 * DAY) (.period [(3, .m)])
     = .ok [63082281600000000, 63082281600000000 + 91 * DAY, 63082281600000000 + 182 * DAY,
       63082281600000000 + 274 * DAY] := by rfl
+
+/-! ### round h3: the away clause for compound tenors and for every spelling of a ZERO bump (F16: `'0b'`) -/
+
+/-- a compound tenor whose parts all point backwards, asked to go forwards (and the mirror image): `ValueError` -/
+theorem compound_away_neg (p q : Int × Per) (rest : List (Int × Per)) (t0 t1 : Int) (h : t0 < t1)
+    (hp : ∀ x ∈ p :: q :: rest, x.1 ≤ -1) : drange t0 t1 (.period (p :: q :: rest)) = .error .value := by
+  rw [compound_is_loopC p q rest t0 t1 (by omega)]
+  have := all_parts_move_backward (p :: q :: rest) (by simp) hp t0
+  exact loopC_away _ t0 t1 (Or.inl ⟨h, by omega⟩)
+
+theorem compound_away_pos (p q : Int × Per) (rest : List (Int × Per)) (t0 t1 : Int) (h : t1 < t0)
+    (hp : ∀ x ∈ p :: q :: rest, 1 ≤ x.1) : drange t0 t1 (.period (p :: q :: rest)) = .error .value := by
+  rw [compound_is_loopC p q rest t0 t1 (by omega)]
+  have := all_parts_move_forward (p :: q :: rest) (by simp) hp t0
+  exact loopC_away _ t0 t1 (Or.inr ⟨h, by omega⟩)
+
+example : drange 63082281600000000 (63082281600000000 + 9 * DAY) (.period [(-1, .m), (-2, .d)]) = .error .value :=
+  compound_away_neg _ _ _ _ _ (by decide) (by decide)
+
+/-- `'0b'` (also `'+0b'`, `'-0b'`: the count is 0) stands still: `ValueError`, whichever side `t1` is on and whatever the
+weekday of `t0` (F16: the pinned code returned the ascending '1b' list, which for `t1 < t0` does not even start at `t0`) -/
+theorem zero_b_away (t0 t1 : Int) (h : t0 ≠ t1) : drange t0 t1 (.period [(0, .b)]) = .error .value := by
+  simp [drange, h]
+
+/-- a zero count of ANY unit raises `ValueError` when `t0 ≠ t1` (month-based units at midnight, as the property claims them):
+`0`, `timedelta(0)`, `'0d'`, `'0w'`, `'0h'`, `'0n'`, `'0s'`, `'0b'`, `'0m'`, `'0q'`, `'0y'` never return an empty or unbounded list -/
+theorem period_zero_away (u : Per) (t0 t1 : Int) (h : t0 ≠ t1) (hm : u.fixed = false → u ≠ .b → t0 % DAY = 0) :
+    drange t0 t1 (.period [(0, u)]) = .error .value := by
+  by_cases hu : u = .b
+  · subst hu; exact zero_b_away t0 t1 h
+  · have hs : dtBump [(0, u)] t0 = t0 := by
+      cases u
+      case b => exact absurd rfl hu
+      case m => exact DRange.monthBump_zero t0 (hm rfl (by decide))
+      case q => exact DRange.monthBump_zero t0 (hm rfl (by decide))
+      case y =>
+        show yearBump t0 0 = t0
+        rw [DRange.yearBump_eq]; exact DRange.monthBump_zero t0 (hm rfl (by decide))
+      all_goals (simp [dtBump, bump1])
+    have := loopC_away (dtBump [(0, u)]) t0 t1 (by
+      rcases Int.lt_or_gt_of_ne h with h1 | h1
+      · exact Or.inl ⟨h1, by omega⟩
+      · exact Or.inr ⟨h1, by omega⟩)
+    simp [drange, h, hu, this]
+
+theorem int_zero_away (t0 t1 : Int) (h : t0 ≠ t1) : drange t0 t1 (.int 0) = .error .value := by
+  simp [drange, h, drangeInt]
+
+theorem td_zero_away (t0 t1 : Int) (h : t0 ≠ t1) : drange t0 t1 (.td 0) = .error .value := by
+  have := loop_away (· + 0) t0 t1 (by
+    rcases Int.lt_or_gt_of_ne h with h1 | h1
+    · exact Or.inl ⟨h1, by omega⟩
+    · exact Or.inr ⟨h1, by omega⟩)
+  simpa [drange, h] using this
+
+-- 2020-01-15 (Wed) back to 2020-01-06 with '0b': the pinned code answered [01-06, …, 01-15]
+example : drange (63082281600000000 + 9 * DAY) 63082281600000000 (.period [(0, .b)]) = .error .value := zero_b_away _ _ (by decide)
+example : drange 63082281600000000 (63082281600000000 + 9 * DAY) (.period [(0, .q)]) = .error .value :=
+  period_zero_away .q _ _ (by decide) (fun _ _ => by decide)
 
 end Pyg.Props.C10
